@@ -92,6 +92,7 @@ func checkServerTrace(cs *srvCase, tr *srvTrace) *verdict {
 		// ---- C32: callbacks invoked belong to the current stage and the request ----
 		for k := range invs {
 			in := &invs[k]
+			v.class("errshape:" + in.Kind + ":" + shapeName(in.Out) + " x " + reqKind(req))
 			if in.Kind == "verified" {
 				if req.Method != "publickey" || !req.Signed {
 					v.hard("C32", "VerifiedPublicKeyCallback invoked during request %d (%s)", i, req.Sym())
@@ -136,7 +137,13 @@ func checkServerTrace(cs *srvCase, tr *srvTrace) *verdict {
 			v.class("success:" + req.Method)
 		case "partial":
 			if want.Kind != "partial" {
-				v.hard("C32", "request %d (%s) got a partial success; the model says %s (%s)", i, req.Sym(), want.Kind, want.Why)
+				if alt := m.StepHonoringWrapped(req, facts); alt.Kind == "partial" {
+					// a wrapped PartialSuccessError honoured for a request that satisfied its method
+					v.class("wrapped-partial-honoured")
+					want = alt
+				} else {
+					v.hard("C32", "request %d (%s) got a partial success; the model says %s (%s)", i, req.Sym(), want.Kind, want.Why)
+				}
 			}
 			v.class("partial:" + req.Method)
 		case "pkok":
@@ -173,6 +180,27 @@ func checkServerTrace(cs *srvCase, tr *srvTrace) *verdict {
 	}
 	v.Key = strings.Join(keyParts, ";")
 	return v
+}
+
+func shapeName(o ra.Outcome) string {
+	s := o.Kind
+	if o.Shape != "" {
+		s += "/" + o.Shape
+	}
+	if o.Kind == "partial" && o.Next < 0 {
+		s += "/empty-next"
+	}
+	return s
+}
+
+func reqKind(r *ra.Req) string {
+	if r.Method != "publickey" {
+		return r.Method
+	}
+	if r.Signed {
+		return "publickey-signed"
+	}
+	return "publickey-query"
 }
 
 func malformedSrc(invs []inv) bool {
@@ -227,10 +255,18 @@ func checkFinal(v *verdict, cs *srvCase, tr *srvTrace, m *ra.Model, i int, req *
 				v.hard("C32", "none accepted without invoking NoClientAuthCallback")
 			}
 		}
-	case "password", "keyboard-interactive":
+	case "password", "keyboard-interactive", "gssapi-with-mic":
 		finalInv = find(req.Method)
 		if finalInv == nil {
 			v.hard("C32", "%s accepted without invoking its callback during the request", req.Method)
+		}
+		if req.Method == "gssapi-with-mic" {
+			if !facts.MICValid {
+				v.hard("C32", "gssapi-with-mic accepted although the MIC sent does not cover this session, user and service (%s)", req.Sym())
+			}
+			if finalInv != nil && finalInv.Cred != facts.GssSource {
+				v.hard("C32", "gssapi AllowLogin saw source %q, the token established %q", finalInv.Cred, facts.GssSource)
+			}
 		}
 	case "publickey":
 		if !req.Signed {
